@@ -159,3 +159,112 @@ package atree
 //@   ensures[C14] err != nil ==> categorised(err)
 //@   modifies s.cache, s.deltas, ghost.ledgerHas, ghost.ledgerVal, ghost.wlen, ghost.wlogID, ghost.wlogOp, alloc
 //@   loop 1: invariant committedPrefix(s, keys, i) && invCoh(s) && (forall j SlabID :: view(s, j) == old(view(s, j)))
+
+//@ # ---- deterministic key order (C04)
+
+//@ pred slabLess(a SlabID, b SlabID) = ite(a.address == b.address, a.index < b.index, a.address < b.address)
+
+//@ pred ownedKeysOf(s *PersistentSlabStorage, r []SlabID) = distinctKeys(r) &&
+//@      (forall k :: 0 <= k && k < len(r) ==> has(s.deltas, r[k]) && r[k].address != AddressUndefined) &&
+//@      (forall id SlabID :: has(s.deltas, id) && id.address != AddressUndefined ==> (exists k :: 0 <= k && k < len(r) && r[k] == id))
+
+//@ func PersistentSlabStorage.sortedOwnedDeltaKeys#1(i, j) (r)  serves C04
+//@   requires 0 <= i && i < len(keysWithOwners) && 0 <= j && j < len(keysWithOwners)
+//@   ensures r == slabLess(keysWithOwners[i], keysWithOwners[j])
+//@   pure
+//@   option less-relation slabLess
+
+//@ func (s *PersistentSlabStorage) sortedOwnedDeltaKeys() (r)  serves C03 C04
+//@   ensures[C03] ownedKeysOf(s, r)
+//@   ensures[C04] forall i, j :: 0 <= i && i < j && j < len(r) ==> slabLess(r[i], r[j])
+//@   modifies alloc
+//@   loop 1: invariant distinctKeys(keysWithOwners) &&
+//@        (forall k :: 0 <= k && k < len(keysWithOwners) ==> has(seen, keysWithOwners[k]) && has(s.deltas, keysWithOwners[k]) && keysWithOwners[k].address != AddressUndefined) &&
+//@        (forall id SlabID :: has(seen, id) && id.address != AddressUndefined ==> (exists k :: 0 <= k && k < len(keysWithOwners) && keysWithOwners[k] == id))
+
+//@ # FastCommit: the encoder goroutines are outside the sequential subset. Verification starts at the apply loop (loop 4);
+//@ # what the concurrent phase is assumed to have produced is stated in the assume clause (A7).
+//@ func (s *PersistentSlabStorage) FastCommit(numWorkers) (err)  serves C03 C04 C14 C15
+//@   option start-at-loop 4
+//@   assume invCoh(s) && s.baseStorage != nil && ownedKeysOf(s, keysWithOwners) &&
+//@        (forall k :: 0 <= k && k < len(keysWithOwners) ==> has(encSlabByID, keysWithOwners[k]) &&
+//@           ite(s.deltas[keysWithOwners[k]] == nil, encSlabByID[keysWithOwners[k]] == nil,
+//@               encSlabByID[keysWithOwners[k]] == enc(s.deltas[keysWithOwners[k]]) && encSlabByID[keysWithOwners[k]] != nil))
+//@        because "A7 cut: after the collection loop encSlabByID[id] = EncodeSlab(deltas[id]) (nil for a deletion) for every sorted owned key; worker interleaving is not modelled"
+//@   ensures[C14] forall j SlabID :: view(s, j) == old(view(s, j))
+//@   ensures[C14] exists p :: committedPrefix(s, keysWithOwners, p) && (err == nil ==> p == len(keysWithOwners))
+//@   ensures[C15] invCoh(s)
+//@   ensures[C03] err == nil ==> (forall id SlabID :: has(s.deltas, id) ==> id.address == AddressUndefined)
+//@   ensures[C14] err != nil ==> categorised(err)
+//@   loop 4: invariant committedPrefix(s, keysWithOwners, i) && invCoh(s) && (forall j SlabID :: view(s, j) == old(view(s, j)))
+
+//@ # ---- observers (C15): counts and sizes over the owned part of the write set.
+//@ # cntOwned / sizeOwned / cntSeen are defined by recursion on set insertion (definitional axioms).
+
+//@ ghost cntOwned : fn(S set[SlabID]) int
+//@ ghost sizeOwned : fn(S set[SlabID], V map[SlabID]ref) int
+//@ ghost cntSeen : fn(S set[SlabID]) int
+
+//@ axiom cntOwned(emptyset(SlabID)) == 0 &&
+//@       (forall S set[SlabID], k SlabID :: {cntOwned(add(S, k))} !has(S, k) ==> cntOwned(add(S, k)) == cntOwned(S) + ite(k.address != AddressUndefined, 1, 0)) &&
+//@       (forall S set[SlabID] :: {cntOwned(S)} 0 <= cntOwned(S) && cntOwned(S) <= 9223372036854775807)
+//@       because "definition of cntOwned: number of identifiers with a non-zero owner address in a finite set (a Go map holds fewer than 2^63 entries)"
+
+//@ axiom (forall V map[SlabID]ref :: {sizeOwned(emptyset(SlabID), V)} sizeOwned(emptyset(SlabID), V) == 0) &&
+//@       (forall S set[SlabID], V map[SlabID]ref, k SlabID :: {sizeOwned(add(S, k), V)} !has(S, k) ==>
+//@            sizeOwned(add(S, k), V) == sizeOwned(S, V) + ite(k.address != AddressUndefined && V[k] != nil, bs(V[k]), 0))
+//@       because "definition of sizeOwned: total reported size of the non-deleted owned slabs in a finite set"
+
+//@ axiom cntSeen(emptyset(SlabID)) == 0 &&
+//@       (forall S set[SlabID], k SlabID :: {cntSeen(add(S, k))} !has(S, k) ==> cntSeen(add(S, k)) == cntSeen(S) + 1) &&
+//@       (forall S set[SlabID] :: {cntSeen(S)} 0 <= cntSeen(S)) &&
+//@       (forall S set[SlabID], T set[SlabID], k SlabID :: {cntSeen(S), cntSeen(T), has(T, k)}
+//@           (forall j SlabID :: has(S, j) ==> has(T, j)) && has(T, k) && !has(S, k) ==> cntSeen(S) < cntSeen(T))
+//@       because "finite-set cardinality: definition by insertion and strict monotonicity under proper inclusion"
+
+//@ func (s *PersistentSlabStorage) DeltasWithoutTempAddresses() (n)  serves C15
+//@   ensures n == cntOwned(dom(s.deltas))
+//@   pure
+//@   loop 1: invariant deltas == cntOwned(seen)
+
+//@ func (s *PersistentSlabStorage) DeltasSizeWithoutTempAddresses() (n)  serves C15
+//@   ensures n == sizeOwned(dom(s.deltas), vals(s.deltas))
+//@   pure
+//@   loop 1: invariant size == sizeOwned(seen, vals(s.deltas))
+
+//@ func (s *PersistentSlabStorage) GenerateSlabID(address) (id, err)  serves C03 C15
+//@   requires s.baseStorage != nil && s.tempSlabIndex < 18446744073709551615
+//@   ensures[C15] address == AddressUndefined ==> err == nil && id.address == AddressUndefined && id.index == old(s.tempSlabIndex) + 1 && s.tempSlabIndex == old(s.tempSlabIndex) + 1
+//@   ensures[C15] err == nil ==> id.address == address
+//@   ensures[C03] sameLedger() && s.deltas == old(s.deltas) && s.cache == old(s.cache)
+//@   ensures err != nil ==> categorised(err)
+//@   modifies s.tempSlabIndex, alloc
+
+//@ # BatchPreload: only the sequential branch (fewer than 11 ids) is inside the subset.
+//@ func (s *PersistentSlabStorage) BatchPreload(ids, numWorkers) (err)  serves C08 C15
+//@   option stop-at-concurrency true
+//@   requires invCoh(s) && s.baseStorage != nil
+//@   ensures[C08] forall j SlabID :: view(s, j) == old(view(s, j))
+//@   ensures[C15] invCoh(s) && s.deltas == old(s.deltas) && sameLedger()
+//@   ensures err != nil ==> categorised(err)
+//@   modifies s.cache, alloc
+//@   loop 1: invariant invCoh(s) && (forall j SlabID :: view(s, j) == old(view(s, j)))
+
+//@ # NondeterministicFastCommit: partition loop (arbitrary map order) and the single-slab path through commit are verified;
+//@ # paths that start encoder goroutines are cut.
+//@ func (s *PersistentSlabStorage) NondeterministicFastCommit(numWorkers) (err)  serves C03 C14 C15
+//@   option stop-at-concurrency true
+//@   requires invCoh(s) && s.baseStorage != nil
+//@   assume len(s.deltas) == cntSeen(dom(s.deltas)) because "the length of a Go map is the cardinality of its key set"
+//@   ensures[C14] forall j SlabID :: view(s, j) == old(view(s, j))
+//@   ensures[C15] invCoh(s)
+//@   ensures[C03] forall id SlabID :: id.address == AddressUndefined ==> untouched(s, id)
+//@   ensures[C14] err != nil ==> categorised(err)
+//@   modifies s.cache, s.deltas, ghost.ledgerHas, ghost.ledgerVal, ghost.wlen, ghost.wlogID, ghost.wlogOp, alloc
+//@   loop 1: invariant 0 <= modifiedSlabCount && 0 <= deletedSlabCount && modifiedSlabCount + deletedSlabCount <= cntSeen(seen) && cntSeen(seen) <= len(slabIDsWithOwner) &&
+//@        len(slabIDsWithOwner) == len(s.deltas) &&
+//@        (forall k :: 0 <= k && k < modifiedSlabCount ==> has(seen, slabIDsWithOwner[k]) && slabIDsWithOwner[k].address != AddressUndefined) &&
+//@        (forall k :: len(slabIDsWithOwner) - deletedSlabCount <= k && k < len(slabIDsWithOwner) ==> has(seen, slabIDsWithOwner[k]) && slabIDsWithOwner[k].address != AddressUndefined) &&
+//@        (forall i, j :: 0 <= i && i < j && j < modifiedSlabCount ==> slabIDsWithOwner[i] != slabIDsWithOwner[j]) &&
+//@        (forall i, j :: len(slabIDsWithOwner) - deletedSlabCount <= i && i < j && j < len(slabIDsWithOwner) ==> slabIDsWithOwner[i] != slabIDsWithOwner[j]) &&
+//@        (forall i, j :: 0 <= i && i < modifiedSlabCount && len(slabIDsWithOwner) - deletedSlabCount <= j && j < len(slabIDsWithOwner) ==> slabIDsWithOwner[i] != slabIDsWithOwner[j])
